@@ -83,6 +83,10 @@ package identify
 //@ callsite Emit#0 requires event.EvtPeerProtocolsUpdated(arg1).Peer == c.RemotePeer() && isPush
 //@ callsite Emit#1 requires event.EvtPeerIdentificationCompleted(arg1).Peer == c.RemotePeer() && event.EvtPeerIdentificationCompleted(arg1).Conn == c
 //@ ensures called(UpdateAddrs, 1) && ncalls(AddAddrs, 0) == 1 && ncalls(SetProtocols, 0) == 1
+// the TTL decision (Connectedness) and the peerstore update happen inside one addrMu critical section: a disconnect
+// (netNotifiee.Disconnected takes the same lock) is handled entirely before or entirely after them
+//@ callsite Connectedness#0 requires called(Lock, 0) && !called(Unlock, 0)
+//@ callsite AddAddrs#0 requires called(Lock, 0) && !called(Unlock, 0) && called(Connectedness, 0)
 //@ noframe
 
 //@ func filterAddrs
